@@ -89,9 +89,8 @@ def run_variant(args):
                 repo = Repo(dst)
                 rep = Report(pid, 'quick', repo)
                 pm.run(rep)
-                known = core_mod.load_known()
-                kk = set((k['property'], k['rule'], k['key']) for k in known.get('known', []))
-                viols = [o for o in rep.obligations if not o.ok and (pid, o.rule, o.key) not in kk]
+                kk = core_mod.known_set()
+                viols = [o for o in rep.obligations if not o.ok and not core_mod.is_known(pid, o.rule, o.key, kk)]
                 if not viols and rep.gaps:
                     res[pid] = ('analysis-error', [('', '', '; '.join(rep.gaps)[:300])])
                 else:
